@@ -54,11 +54,19 @@ class Def:
         lines.append(f"END:{kind}")
         self.subs.append((kind, frm, to, name, lines, onsets))
 
+    decor = None  # None | "xprop" | "param": harmless additions that real-world exporters write
+
     def text(self, order=None):
         subs = self.subs if order is None else [self.subs[i] for i in order]
         out = ["BEGIN:VTIMEZONE", f"TZID:{self.tzid}"]
+        if self.decor == "xprop":
+            out.append("X-LIC-LOCATION:Custom/C12")
         for s in subs:
-            out += s[4]
+            lines = list(s[4])
+            if self.decor == "param":
+                lines = [ln.replace("TZNAME:", "TZNAME;LANGUAGE=en:") if ln.startswith("TZNAME:") else ln for ln in lines]
+                lines.insert(1, "COMMENT;X-P=1:decorated")
+            out += lines
         out.append("END:VTIMEZONE")
         return out
 
@@ -176,7 +184,15 @@ def fail(cls, case, expected, observed, known=None):
 
 def run_def(case):
     fails = []
-    d = build(case)
+    decor = None
+    if case[1] in ("decor-xprop", "decor-param"):
+        decor = case[1].split("-")[1]
+        case_inner = ("def",) + tuple(case[2])
+    else:
+        case_inner = case
+    d = build(case_inner)
+    d.decor = decor
+    case_for_matchers = case_inner
     obs = d.observances()
     text = "\r\n".join(d.text()) + "\r\n"
     pts = eval_points(obs)
@@ -215,7 +231,7 @@ def run_def(case):
         results[provider] = res
         if bad:
             fails.append(fail(f"{provider}:interpretation-differs", case, bad[1], (bad[0],) + bad[2],
-                              known=known_interpretation(provider, case, d, obs, pts, tz)))
+                              known=known_interpretation(provider, case_for_matchers, d, obs, pts, tz)))
     if results.get("zoneinfo") is not None and results.get("pytz") is not None and results["zoneinfo"] != results["pytz"] \
             and not any(f["cls"].endswith("interpretation-differs") for f in fails):
         fails.append(fail("providers-disagree", case, "same offsets", "different offsets"))
@@ -377,6 +393,12 @@ def definitions(quick):
         for delta in DELTAS:
             for names in ("given", "absent", "same"):
                 yield ("def", "rdate", std, delta, names)
+    # the same definitions with additions exporters commonly write (an X- property, a LANGUAGE parameter, a COMMENT)
+    for std in STD_OFFSETS:
+        for delta in DELTAS:
+            for bound in ("none", "until", "count"):
+                for decor in ("decor-xprop", "decor-param"):
+                    yield ("def", decor, ("std+dst", std, delta, -1, (3, 10), "SU", bound, "given"))
     for o1, o2 in itertools.permutations(STD_OFFSETS, 2):
         for named in (True, False):
             yield ("def", "two-std", o1, o2, named)
